@@ -12,7 +12,6 @@ import (
 	"io"
 	"math/rand"
 	"os"
-	"runtime/pprof"
 	"sort"
 	"strings"
 	"sync"
@@ -979,11 +978,6 @@ func minU(a, b uint64) uint64 {
 // Gen: n is the number of cases (schedules); a fifth of them are database-level sync cases
 func Gen(r *vk.Run, n int) error {
 	useTmpfs()
-	if pf := os.Getenv("C07_PROFILE"); pf != "" {
-		f, _ := os.Create(pf)
-		pprof.StartCPUProfile(f)
-		defer pprof.StopCPUProfile()
-	}
 	genN = n
 	if err := runProbe(r); err != nil {
 		return err
